@@ -13,6 +13,7 @@
 
 #include <occa.hpp>
 #include <occa/types/json.hpp>
+#include <occa/functional.hpp>
 
 using occa::json;
 
@@ -81,6 +82,17 @@ int main(int argc, char **argv) {
         const std::string name = job.get<std::string>("kernel", "k");
         json props = job["props"];
         if (!props.isInitialized()) props = json(json::object_);
+        if (job.has("fnvariant")) {
+          // the `functions` property can only be populated through the functional API
+          const int fv = job.get("fnvariant", 0);
+          if (fv == 0) {
+            props["functions/addk"] = OCCA_FUNCTION({}, [=](int a) -> int { return a + 1; });
+          } else if (fv == 1) {
+            props["functions/addk"] = OCCA_FUNCTION({}, [=](int a) -> int { return a + 2; });
+          } else {
+            props["functions/addk"] = OCCA_FUNCTION({}, [=](int a) -> int { return a * 3; });
+          }
+        }
         occa::kernel k;
         if (job.get<std::string>("kind", "string") == "string") {
           k = dev.buildKernelFromString(job["source"], name, props);
